@@ -361,6 +361,53 @@ def run(ctx):
             ctx.ob('C17.6', g, 'read-bytes-always-stored', not back, 'every iteration of the output loop %s TaskLogWriter::append' % ('passes' if not back else 'can come back to the loop head WITHOUT') +
                    ('' if not back else ': bytes that were read (and may be previewed later) never reach the stored log'), line=ap.line)
     ctx.floor('C17.6', 'log appends inside output loops', n6, 1)
+    # ... and what was stored is announced: after the append, the only thing that may skip the output frame of this chunk
+    # is that nothing is left to preview (emptiness / length of the preview) — not what the bytes look like. The frames
+    # carry the stored ranges; a stored chunk without its frame leaves a hole in the ranges a reader follows.
+    n9 = 0
+    for g in P.find_fns(r'^ripd::tasks::'):
+        aps = g.calls(r'^ripd::tasks::logs::TaskLogWriter::append$')
+        ems = [s_ for s_ in g.sites() if re.search(r'TaskEmitter::emit$', s_.callee or '')]
+        for ap in aps:
+            h6 = g.innermost_loop(ap.bb)
+            if h6 is None:
+                continue
+            body6 = g.loops()[h6]
+            em_in = [e_ for e_ in ems if e_.bb in body6 and g.can_reach(ap.bb, e_.bb)]
+            if not em_in:
+                continue
+            after_ap = g.reach_from_after(ap.bb, stop=(h6,))
+            for (bi, on, ts, els) in switches(g):
+                if bi not in after_ap or bi not in body6 or not any(g.can_reach(bi, e_.bb) for e_ in em_in):
+                    continue
+                # a branch one of whose edges goes back to the loop head without the emit
+                tg = set(list(ts.values()) + [els]) - {None}
+                skips = [t_ for t_ in tg if not g.must_pass([e_.bb for e_ in em_in], t_, [h6] + list(g.returns()))]
+                takes = [t_ for t_ in tg if any(g.can_reach(t_, e_.bb) for e_ in em_in)]
+                if not skips or not takes or g.blocks[bi]['t'].get('k') != 'switch':
+                    continue
+                o_ = g.origin(on)
+                if o_[0] == 'rv' and o_[1]['k'] == 'discr':
+                    continue            # Ok / Err / Some / None of a call result: a fault, not a look at the bytes
+                n9 += 1
+                chain = []
+                if o_[0] == 'call':
+                    chain = [o_[1]]
+                    cur = o_[1].args[0] if o_[1].args else None
+                    for _ in range(8):
+                        if cur is None:
+                            break
+                        o2 = g.origin(cur, through_calls=(r'::deref$', r'::as_ref$', r'::as_str$', r'::as_bytes$', r'::borrow$'))
+                        if o2[0] != 'call':
+                            break
+                        chain.append(o2[1])
+                        cur = o2[1].args[0] if o2[1].args else None
+                looks = [c_ for c_ in chain if c_.name not in ('is_empty', 'len', 'deref', 'as_ref', 'as_str', 'as_bytes', 'borrow', 'min', 'truncate_utf8')]
+                ctx.touch(g)
+                ctx.ob('C17.6', g, 'stored-chunk-announced', not looks,
+                       'the output frame of a stored chunk is skipped only on %s' % (' of '.join(c_.name for c_ in chain) or 'a plain flag / comparison') if not looks else
+                       'whether a stored chunk gets its output frame depends on %s (line %s) — on what the bytes look like: a chunk that is stored but not announced leaves a gap in the ranges the output frames reference' % (looks[0].name, looks[0].line), line=g.blocks[bi]['t'].get('ln'))
+    ctx.floor('C17.6', 'frame-or-skip decisions after a log append', n9, 1)
 
     # ---------------------------------------------------------------- C17.7
     from .c03 import c037
